@@ -127,9 +127,10 @@ class Native(Interp):
         return r
 
 
-def run_native(mod, so_path, fn, inputs, mode='BV'):
+def run_native(mod, so_path, fn, inputs, mode='BV', default_missing=None):
     """returns dict(status, kind, msg, observations)"""
     N = Native(mod, so_path, inputs, mode)
+    N.default_missing = default_missing
     try:
         fn(N)
         return dict(status='ok', observations=N.observations, obligations=N.path_obl)
